@@ -86,11 +86,12 @@ def cmd_selftest(args):
     import subprocess
     import tempfile
     ids = args.ids or sorted(os.listdir(os.path.join(VERIF, 'seeded')))
-    bad = 0
-    for sid in ids:
+
+    def one(sid):
+        lines, bad = [], 0
         sd = os.path.join(VERIF, 'seeded', sid)
         if not os.path.exists(os.path.join(sd, 'patch.diff')):
-            continue
+            return lines, bad
         meta = json.load(open(os.path.join(sd, 'meta.json'))) if os.path.exists(os.path.join(sd, 'meta.json')) else {}
         props = [meta.get('property', sid)] + list(meta.get('also_detected_by', []))
         tmp = tempfile.mkdtemp(prefix='vf-selftest-', dir=os.path.expanduser('~/.cache') if os.path.isdir(os.path.expanduser('~/.cache')) else None)
@@ -98,18 +99,24 @@ def cmd_selftest(args):
             shutil.copytree(os.path.join(os.environ.get('VF_REPO', '/repo'), 'src'), os.path.join(tmp, 'src'))
             r = subprocess.run(['patch', '-p1', '-s', '-i', os.path.join(sd, 'patch.diff')], cwd=tmp, capture_output=True, text=True)
             if r.returncode != 0:
-                print(f'{sid}: patch does not apply: {r.stdout[-200:]}{r.stderr[-200:]}')
-                bad += 1
-                continue
+                return [f'{sid}: patch does not apply: {r.stdout[-200:]}{r.stderr[-200:]}'], 1
             for p in props:
                 env = dict(os.environ, VF_REPO=tmp, VF_SELFTEST='1')
                 r = subprocess.run([sys.executable, '-m', 'pyvc.cli', 'check', p, '--no-evidence'], cwd=VERIF, env=env,
                                    capture_output=True, text=True)
                 verdict = 'detected' if r.returncode == 1 and 'VIOLATION' in r.stdout else f'NOT DETECTED (exit {r.returncode})'
-                print(f'seed {sid} against {p}: {verdict}')
+                lines.append(f'seed {sid} against {p}: {verdict}')
                 bad += verdict != 'detected'
         finally:
             shutil.rmtree(tmp, ignore_errors=True)
+        return lines, bad
+    from concurrent.futures import ThreadPoolExecutor
+    bad = 0
+    with ThreadPoolExecutor(max_workers=max(1, args.jobs)) as ex:
+        for lines, b in ex.map(one, ids):
+            for ln in lines:
+                print(ln, flush=True)
+            bad += b
     return 1 if bad else 0
 
 
@@ -129,6 +136,7 @@ def main():
     r.add_argument('path')
     sub.add_parser('selfcheck')
     st = sub.add_parser('selftest')
+    st.add_argument('-j', '--jobs', type=int, default=1)
     st.add_argument('ids', nargs='*')
     a = ap.parse_args()
     rc = {'check': cmd_check, 'replay': cmd_replay, 'selfcheck': cmd_selfcheck, 'selftest': cmd_selftest}[a.cmd](a)
